@@ -256,14 +256,28 @@ def referenceHits (j : Journal) (t : Hit) (decl : Bool) : List Hit :=
 def startLe {α} (a b : α × LRange) : Bool :=
   a.2.sl < b.2.sl || (a.2.sl == b.2.sl && a.2.sc ≤ b.2.sc)
 
+/-- The dedup loop of `sortAndDedup`: keep a location unless it equals the one before it. -/
+def dedupFrom {α} (prev : α × LRange) : List (α × LRange) → List (α × LRange)
+  | [] => [prev]
+  | y :: rest => if prev.2 == y.2 then dedupFrom prev rest else prev :: dedupFrom y rest
+
 def dedupAdj {α} : List (α × LRange) → List (α × LRange)
   | [] => []
-  | [x] => [x]
-  | x :: y :: rest => if x.2 == y.2 then dedupAdj (x :: rest) else x :: dedupAdj (y :: rest)
+  | x :: rest => dedupFrom x rest
+
+/-- Insert before the first element that is not smaller (stable when used from the right). -/
+def insertLe {α} (x : α × LRange) : List (α × LRange) → List (α × LRange)
+  | [] => [x]
+  | y :: ys => if startLe x y then x :: y :: ys else y :: insertLe x ys
+
+/-- `sort.Slice` with the `(line, character)` order of `sortAndDedup`, as the stable sort
+    (locations that tie on the start are the same location after `dedupAdj` in every run seen;
+    the correspondence check would show an order difference otherwise). -/
+def sortStart {α} (l : List (α × LRange)) : List (α × LRange) := l.foldr insertLe []
 
 /-- `sortAndDedup` (the first component is carried along: what the location is a location of). -/
 def sortAndDedup {α} (l : List (α × LRange)) : List (α × LRange) :=
-  dedupAdj (l.mergeSort startLe)
+  dedupAdj (sortStart l)
 
 /-- `References`. -/
 def references (j : Journal) (c : Cur) (decl : Bool) : List (Hit × LRange) :=
@@ -405,22 +419,23 @@ def indentedEnd : List Txt → Nat → Nat → Nat
       indentedEnd rest (j + 1) (if trimSpace n ≠ [] then j else e)
     else e
 
-def directiveFoldsFrom : List Txt → Nat → List Fold
+def isIndentedLine (l : Txt) : Bool := l.head? == some ' ' || l.head? == some '\t'
+
+def directiveFoldsFrom (fx : Fixes) : List Txt → Nat → List Fold
   | [], _ => []
   | l :: rest, i =>
-    (if isDirectiveLine l then
+    -- fix-fold-ranges.diff: an indented line never starts a directive fold
+    (if isDirectiveLine l && !(fx.fold && isIndentedLine l) then
       let e := indentedEnd rest (i + 1) i
       if e > i then [⟨UInt32.ofNat i, UInt32.ofNat e, false⟩] else []
-     else []) ++ directiveFoldsFrom rest (i + 1)
+     else []) ++ directiveFoldsFrom fx rest (i + 1)
 
 /-- `findDirectiveFolds`. -/
-def directiveFolds (doc : Txt) : List Fold := directiveFoldsFrom (lines doc) 0
+def directiveFolds (fx : Fixes) (doc : Txt) : List Fold := directiveFoldsFrom fx (lines doc) 0
 
 def isCommentLine (l : Txt) : Bool :=
   let t := trimSpace l
   t.head? == some ';' || t.head? == some '#'
-
-def isIndentedLine (l : Txt) : Bool := l.head? == some ' ' || l.head? == some '\t'
 
 def closeBlock (start : Option (Nat × Bool)) (i : Nat) : List Fold :=
   match start with
@@ -446,7 +461,7 @@ def commentFolds (fx : Fixes) (doc : Txt) : List Fold := commentFoldsFrom fx (li
 
 /-- `FoldingRanges`. -/
 def foldingRanges (fx : Fixes) (doc : Txt) (j : Journal) : List Fold :=
-  if doc = [] then [] else transactionFolds fx j ++ directiveFolds doc ++ commentFolds fx doc
+  if doc = [] then [] else transactionFolds fx j ++ directiveFolds fx doc ++ commentFolds fx doc
 
 /-! ### Completion edit range -/
 
